@@ -124,6 +124,9 @@ pub assume_specification[ std::fs::File::metadata ](f: &std::fs::File) -> (r: Re
 pub assume_specification[ std::fs::Metadata::len ](m: &std::fs::Metadata) -> (r: u64)
     ensures r == metadata_len(m);
 
+/// token fact: a write of exactly these bytes was attempted on a log writer - only `VWriter::write_all` establishes it ("only records whose OWN
+/// write failed may be missing": an error result without an attempted write is not a failed write)
+pub uninterp spec fn write_attempted(buf: Seq<u8>) -> bool;
 // ---- the writer shim (rule R1): Box<dyn Write + Send> of state.rs -----------------------------------
 /// What has been handed to a writer object since it was created, and how much of it is known to be flushed.
 pub ghost struct WView { pub written: Seq<u8>, pub flushed: nat, pub flush_calls: nat }
@@ -175,6 +178,7 @@ impl VWriter {
             final(self)@.flushed >= old(self)@.flushed,
             r is Ok ==> final(self)@.written == old(self)@.written + buf@,
             r is Err ==> is_prefix(old(self)@.written, final(self)@.written) && is_prefix(final(self)@.written, old(self)@.written + buf@),
+            write_attempted(buf@),
     { unimplemented!() }
 
     /// `Write::flush` (A1)
